@@ -414,3 +414,31 @@ pub fn property() -> Property {
         ],
     }
 }
+
+/// (name, exh bytes, exd bytes) of generated sheets for the robustness checks (C18)
+pub fn seed_files(ctx: &Ctx, n: usize) -> Vec<(String, Vec<u8>, Vec<u8>)> {
+    let strat = strategy(ctx);
+    let mut out = vec![];
+    let mut k = 0u64;
+    while out.len() < n && k < 300 {
+        let c = draw_fixed(&strat, 0xC05_5EED + k);
+        k += 1;
+        if c.rows.len() < 2 || c.schema.columns.len() < 3 {
+            continue;
+        }
+        // one plain sheet with strings, one sub-row sheet
+        let has_string = c.schema.columns.iter().any(|c| c.ty == 0);
+        let sub = c.rows.iter().any(|r| r.subrows.len() > 1);
+        let want_sub = out.len() % 2 == 1;
+        if (want_sub && !sub) || (!want_sub && !has_string) {
+            continue;
+        }
+        let exh = encode_exh(&c.schema);
+        let exd = encode_exd(&c.schema, &c.rows, &physical_order(&c.order_keys), c.exd_version);
+        if exd.len() > 6000 {
+            continue;
+        }
+        out.push((format!("gen{}", out.len()), exh, exd));
+    }
+    out
+}
